@@ -88,11 +88,17 @@ class Acc:
         self.samples = []
         self.notes = []
         self.n_violations = 0
+        self._distinct = set()
 
     def count(self, key, n=1):
         self.counters[key] = self.counters.get(key, 0) + n
 
     def add(self, setname, item):
+        if setname == "distinct":
+            # case fingerprints can run into the millions: keep them as ints in memory and report only their number;
+            # shards explore disjoint coordinates (scheme / prefix / shard index are part of every fingerprint)
+            self._distinct.add(item)
+            return
         self.sets.setdefault(setname, set()).add(item)
 
     def sample(self, s, cap=MAX_SAMPLES_KEPT):
@@ -117,12 +123,32 @@ class Acc:
             "n_violations": self.n_violations,
             "samples": self.samples,
             "notes": self.notes,
+            # small sets travel whole (exact de-duplication across shards); huge ones as a per-shard count
+            **({"distinct_list": sorted(self._distinct)} if len(self._distinct) <= 150000
+               else {"distinct_count": len(self._distinct)}),
         }
+
+
+class _Counted:
+    """Stands in for a set whose elements were counted in the shards (len() is all that is needed)."""
+
+    def __init__(self, n):
+        self.n = n
+
+    def __len__(self):
+        return self.n
+
+    def __iter__(self):
+        return iter(())
 
 
 def merge(results):
     """Merge the JSON results of several shards."""
     m = {"counters": {}, "sets": {}, "violations": [], "n_violations": 0, "samples": [], "notes": []}
+    union = set()
+    for r in results:
+        union.update(r.get("distinct_list", ()))
+    total_distinct = len(union) + sum(r.get("distinct_count", 0) for r in results)
     for r in results:
         for k, v in r.get("counters", {}).items():
             m["counters"][k] = m["counters"].get(k, 0) + v
@@ -134,6 +160,7 @@ def merge(results):
             if len(m["samples"]) < MAX_SAMPLES_KEPT:
                 m["samples"].append(s)
         m["notes"].extend(r.get("notes", []))
+    m["sets"]["distinct"] = _Counted(total_distinct)
     return m
 
 
